@@ -390,6 +390,7 @@ FALLBACK_ROWS = {("windows", "memory_info"), ("windows", "memory_full_info"), ("
 # returns before looking at `region`). CAVEAT: judge_fault does not check that the id is still listed in known_findings.json,
 # so after a revert of either repair a bare OSError at these two call sites would still be tolerated here; the regression is
 # then reported by the theorems only (cfg_win_ppid_wrapped, cfg_win_maps_loop_guarded, C20_method_faults_within_spec_code).
+KNOWN_NOW = set()          # ids of the findings currently listed as known for C20 (set by correspond/search from ctx.findings)
 KNOWN_REGIONS = {
     "C20-win-ppid-bare": ("windows", "ppid", "ppid_map"),
     "C20-win-memory-maps-bare": ("windows", "memory_maps", "QueryDosDevice"),
@@ -525,7 +526,9 @@ def judge_fault(c, impl, m, res):
     in_spec = any(same_outcome(impl, a) for a in allowed)
     region = None
     for fid, (pl, me, ca) in KNOWN_REGIONS.items():
-        if (c["ident"], c["meth"], c["call"]) == (pl, me, ca):
+        # tolerated only while the finding is still listed as known (both were fixed by 61843a1 / 4481769: a return
+        # of the bare OSError is a violation again)
+        if (c["ident"], c["meth"], c["call"]) == (pl, me, ca) and fid in KNOWN_NOW:
             region = fid
     if not in_spec:
         if region and impl.get("k") == "raw" and impl.get("errno") == c["errno"] and impl.get("winerror") == c["winerror"]:
@@ -997,6 +1000,8 @@ def _chunks(xs, n):
 
 
 def correspond(ctx, res):
+    KNOWN_NOW.clear()
+    KNOWN_NOW.update(f.get("id") for f in ctx.findings)
     emus = _emus(ctx.snap)
     res.rule = ("exhaustive single-fault sweep: platform identity × public Process method × pid ∈ {42, 0} × each native "
                 "call of the no-fault trace × errno ∈ {ESRCH, ENOENT, EPERM, EACCES, EIO, EINVAL} (× winerror ∈ {None, 0, 5, "
@@ -1134,6 +1139,8 @@ def correspond(ctx, res):
 
 
 def search(ctx, res, broken):
+    KNOWN_NOW.clear()
+    KNOWN_NOW.update(f.get("id") for f in ctx.findings)
     correspond(ctx, res)
 
 
@@ -1173,6 +1180,8 @@ def _rerun(ctx, inp, res):
 
 
 def replay(ctx, rp, res):
+    KNOWN_NOW.clear()
+    KNOWN_NOW.update(f.get("id") for f in ctx.findings)
     inp = rp.get("input") or {}
     if not isinstance(inp, dict) or "ident" not in inp:
         return True
